@@ -70,6 +70,7 @@ type World struct {
 	placedAndGiven [][]byte
 	hs             *hstore
 	genuine        map[string]bool // hashes of header blobs really signed with the proposer's key that the node was given
+	genuineData    map[string]bool // "<height>:<data hash>" of those headers: the data the proposer committed to
 }
 
 func (w *World) stop() {
@@ -213,6 +214,7 @@ func Run(c *hx.Ctx) {
 			w.da = hx.NewDA()
 			w.hs = &hstore{base: ih - 1}
 			w.genuine = map[string]bool{}
+			w.genuineData = map[string]bool{}
 			w.placedAndGiven = nil
 			env, err := bm.New(bm.Options{InitialHeight: ih, GenesisTime: time.Unix(0, o.I64("gt")), Aggregator: false, DA: w.da, DAStart: st, HeaderStore: w.hs})
 			if err != nil {
@@ -348,15 +350,24 @@ func Run(c *hx.Ctx) {
 				}
 			}
 			verdict := "panic"
+			var dat *types.Data
 			func() {
 				defer func() {
 					if r := recover(); r != nil {
 						c.Report("C03/panic/p2p-library-entry-data", fmt.Sprint(r))
 					}
 				}()
-				_, verdict = libAdmit[*types.Data](trusted, trusted != nil, b)
+				dat, verdict = libAdmit[*types.Data](trusted, trusted != nil, b)
 			}()
 			c.Emit("p2plibdat %s", verdict)
+			// C03 by the letter: what a node stores in its P2P data store and serves to peers must be the proposer's. P2P
+			// Data carries no signature; the only tie is the data hash of a proposer-signed header. An accepted item that
+			// is not the data of any proposer-signed header the node was given is third-party material in the store.
+			if verdict == "accepted" && dat != nil && dat.Metadata != nil {
+				if !w.genuineData[fmt.Sprintf("%d:%x", dat.Height(), []byte(dat.DACommitment()))] {
+					c.Report("C03/p2p-data-store/unsigned-data-accepted", fmt.Sprintf("height %d, %d txs, commitment %s", dat.Height(), len(dat.Txs), short(dat.DACommitment())))
+				}
+			}
 		case "place":
 			da, _ := o.U64("da")
 			b := o.Bytes("blob")
@@ -725,6 +736,7 @@ func (w *World) note(b []byte) {
 	}
 	if bm.SigClass(w.env.Pub, &sh.Header, sh.Signature) == "valid" {
 		w.genuine[strings.ToLower(sh.Hash().String())] = true
+		w.genuineData[fmt.Sprintf("%d:%x", sh.Height(), []byte(sh.DataHash))] = true
 	}
 }
 
